@@ -17,6 +17,7 @@
 
 #include <reproc/reproc.h>
 #include <reproc++/reproc.hpp>
+#include <reproc++/run.hpp>
 
 // ---------------------------------------------------------------- fake C API
 namespace {
@@ -35,6 +36,14 @@ struct Captured {
 
 Captured g_start;
 int g_ret = 0;               // scripted return value for the next C call
+std::map<std::string, int> g_script;  // per-function override (used for the multi-call run() overloads)
+std::vector<std::string> g_calls;     // names of the C functions called, in order
+static int ret_for(const char *fn)
+{
+  g_calls.emplace_back(fn);
+  auto it = g_script.find(fn);
+  return it == g_script.end() ? g_ret : it->second;
+}
 long g_new = 0, g_destroy = 0;
 struct LastCall {
   const char *fn = "";
@@ -88,10 +97,10 @@ int reproc_start(reproc_t *process, const char *const *argv, reproc_options opti
   c.wd_null = options.working_directory == nullptr;
   if (options.working_directory) c.wd = options.working_directory;
   g_start = c;
-  return g_ret;
+  return ret_for("start");
 }
 
-int reproc_pid(reproc_t *process) { g_last = LastCall(); g_last.fn = "pid"; g_last.p = process; return g_ret; }
+int reproc_pid(reproc_t *process) { g_last = LastCall(); g_last.fn = "pid"; g_last.p = process; return ret_for("pid"); }
 
 int reproc_poll(reproc_event_source *sources, size_t num_sources, int timeout)
 {
@@ -103,45 +112,45 @@ int reproc_poll(reproc_event_source *sources, size_t num_sources, int timeout)
     g_last.sources.push_back(sources[i]);
     if (i < g_poll_events.size()) sources[i].events = g_poll_events[i];
   }
-  return g_ret;
+  return ret_for("poll");
 }
 
 int reproc_read(reproc_t *process, REPROC_STREAM stream, uint8_t *buffer, size_t size)
 {
   g_last = LastCall();
   g_last.fn = "read"; g_last.p = process; g_last.a = stream; g_last.ptr = buffer; g_last.b = static_cast<long>(size);
-  return g_ret;
+  return ret_for("read");
 }
 
 int reproc_write(reproc_t *process, const uint8_t *buffer, size_t size)
 {
   g_last = LastCall();
   g_last.fn = "write"; g_last.p = process; g_last.ptr = buffer; g_last.b = static_cast<long>(size);
-  return g_ret;
+  return ret_for("write");
 }
 
 int reproc_close(reproc_t *process, REPROC_STREAM stream)
 {
   g_last = LastCall();
   g_last.fn = "close"; g_last.p = process; g_last.a = stream;
-  return g_ret;
+  return ret_for("close");
 }
 
 int reproc_wait(reproc_t *process, int timeout)
 {
   g_last = LastCall();
   g_last.fn = "wait"; g_last.p = process; g_last.a = timeout;
-  return g_ret;
+  return ret_for("wait");
 }
 
-int reproc_terminate(reproc_t *process) { g_last = LastCall(); g_last.fn = "terminate"; g_last.p = process; return g_ret; }
-int reproc_kill(reproc_t *process) { g_last = LastCall(); g_last.fn = "kill"; g_last.p = process; return g_ret; }
+int reproc_terminate(reproc_t *process) { g_last = LastCall(); g_last.fn = "terminate"; g_last.p = process; return ret_for("terminate"); }
+int reproc_kill(reproc_t *process) { g_last = LastCall(); g_last.fn = "kill"; g_last.p = process; return ret_for("kill"); }
 
 int reproc_stop(reproc_t *process, reproc_stop_actions stop)
 {
   g_last = LastCall();
   g_last.fn = "stop"; g_last.p = process; g_last.stop = stop;
-  return g_ret;
+  return ret_for("stop");
 }
 
 const char *reproc_strerror(int error) { (void) error; return "fake"; }
@@ -316,6 +325,45 @@ static void check_clone(const reproc::options &o, const std::string &ctx)
   CL("input.data", c.input.data(), o.input.data());
   CL("input.size", c.input.size(), o.input.size());
   CL("nonblocking", c.nonblocking, o.nonblocking);
+}
+
+// reproc::run(arguments, options): like C reproc_run - the streams default to the parent's unless a
+// discard/file/path shorthand is given; everything else reaches reproc_start unchanged; the result is
+// that of the stop step (or the first error).
+static long st_runs;
+static bool ec_matches(const std::error_code &ec, int r);
+static void method_viol(const char *m, int r, const std::string &what);
+static void check_run(const reproc::options &o, const std::vector<std::string> &args, const std::string &ctx,
+                      const std::vector<std::pair<std::string, std::string>> &envstore)
+{
+  st_runs++;
+  int start_r = rnd() % 6 == 0 ? -static_cast<int>(1 + rnd() % 40) : 1 + static_cast<int>(rnd() % 30000);
+  int stop_r = rnd() % 5 == 0 ? -static_cast<int>(1 + rnd() % 120) : static_cast<int>(rnd() % 256);
+  g_script = { { "start", start_r }, { "poll", REPROC_EPIPE }, { "stop", stop_r } };
+  g_calls.clear();
+  long destroys = g_destroy, news = g_new;
+  std::pair<int, std::error_code> res = reproc::run(args, o);
+  g_script.clear();
+  std::string c2 = ctx + " via run()";
+  if (g_start.argv_null || g_start.argv != args) viol("container-conversion", "run-arguments", "argv array differs from the container (" + c2 + ")");
+  reproc::options want = reproc::options::clone(o);
+  if (!o.redirect.discard && o.redirect.file == nullptr && o.redirect.path == nullptr) want.redirect.parent = true;
+  compare_options(g_start.o, want, c2, envstore);
+  st_fields++;
+  if (g_start.o.fork) viol("field-not-mapped", "run-fork", "run() sets the C fork option (" + c2 + ")");
+  if (start_r < 0) {
+    if (res.first != -1 || !ec_matches(res.second, start_r)) method_viol("run", start_r, "start error not returned by run()");
+    if (g_calls.size() != 1 || g_calls[0] != "start") viol("method-result", "run", "run() went on after a failed start (" + c2 + ")");
+  } else {
+    if (res.first != stop_r || !ec_matches(res.second, stop_r)) method_viol("run", stop_r, "stop result not returned by run()");
+    if (g_calls.empty() || g_calls.back() != "stop") viol("method-result", "run", "run() did not end with the stop step (" + c2 + ")");
+    bool same = static_cast<int>(g_last.stop.first.action) == static_cast<int>(o.stop.first.action) &&
+                g_last.stop.first.timeout == o.stop.first.timeout.count() &&
+                static_cast<int>(g_last.stop.third.action) == static_cast<int>(o.stop.third.action) &&
+                g_last.stop.third.timeout == o.stop.third.timeout.count();
+    if (!same) viol("field-not-mapped", "run-stop", "run() does not stop with options.stop (" + c2 + ")");
+  }
+  if (g_destroy - destroys != g_new - news) viol("destroy-count", "run", "run() leaks or double-destroys its process (" + c2 + ")");
 }
 
 static const int RETS[] = { 0, 1, 2, 137, 143, 255, 4096, INT_MAX, -1, -2, -4, -9, -11, -12, -22, -32, -110 };
@@ -516,6 +564,7 @@ static void one_case(int only, long idx)
     if (fr.first != (r2 == 0) || !ec_matches(fr.second, r2)) method_viol("fork", r2, "result pair wrong");
   }
   check_clone(o, ctx);
+  check_run(o, args, ctx, envstore);
   // const char* const* forms
   if (idx % 7 == 0) {
     const char *raw[] = { "prog", "a", nullptr };
@@ -553,7 +602,7 @@ int main(int argc, char **argv)
     snprintf(b, sizeof b, "%ld reproc_new calls, %ld reproc_destroy calls", g_new, g_destroy);
     viol("destroy-count", "total", b);
   }
-  printf("S\t%ld\t%ld\t%ld\t%ld\t%ld\t%ld\t%ld\t%ld\n", st_cases, st_viol, st_fields, st_methods, st_containers, st_clones,
-         st_consts, st_onehot);
+  printf("S\t%ld\t%ld\t%ld\t%ld\t%ld\t%ld\t%ld\t%ld\t%ld\n", st_cases, st_viol, st_fields, st_methods, st_containers, st_clones,
+         st_consts, st_onehot, st_runs);
   return st_viol ? 1 : 0;
 }
